@@ -308,3 +308,25 @@ def run(pid, tier, seed, args):
                      extra_cov=cov, extra_viols=viols,
                      extra_samples=[{"constructed": {"label": fam[0][0], "names": fam[0][1][:12], "extras": list(fam[0][2]),
                                                      "allow_list": fam[0][3], "rank": fam[0][4]}}])
+
+
+def replay(path):
+    import sys
+    with open(path) as f:
+        rp = json.load(f)
+    h = rp.get("history")
+    if isinstance(h, dict):
+        label = h["label"].split("+")[0]
+        bad = 0
+        for case in family("thorough"):
+            if case[0] == label and case[3] == h.get("allow_list") and case[4] == h.get("rank") and \
+                    len(case[1]) == h.get("n_names") and list(case[2]) == h.get("extras"):
+                res = run_case(case)
+                viols = res[0] if isinstance(res, tuple) else []
+                for v in viols:
+                    bad += 1
+                    print("  -> VIOLATED clause=%s history=%s detail=%s" % (v["clause"], json.dumps(v["history"], default=repr),
+                                                                       json.dumps(v["detail"], default=repr)[:1500]))
+        print("replay: %d violation(s)" % bad)
+        return 1 if bad else 0
+    return runner.generic_replay(sys.modules[__name__], "C04", path)
